@@ -6,7 +6,9 @@
 package main
 
 import (
+	"encoding/json"
 	"fmt"
+	"os"
 	"reflect"
 	"strings"
 
@@ -30,6 +32,29 @@ func oracle(c rescorr.Case, ms *yang.Modules, errs []error, out *rescorr.GoOut) 
 	add := func(s string) {
 		if len(out.Findings) < 10 {
 			out.Findings = append(out.Findings, s)
+		}
+	}
+	seenSide := map[*yang.Entry]bool{}
+	var side func(e *yang.Entry, path string, depth int)
+	side = func(e *yang.Entry, path string, depth int) {
+		if e == nil || seenSide[e] || depth > 40 {
+			return
+		}
+		seenSide[e] = true
+		if len(e.Errors) > 0 {
+			add(fmt.Sprintf("recorded error after a clean Process on an entry kept at %s: %v", path, e.Errors[0]))
+		}
+		for k, ch := range e.Dir {
+			side(ch, path+"/"+k, depth+1)
+		}
+		for dt, des := range e.Deviate {
+			for i, de := range des {
+				side(de, fmt.Sprintf("%s#deviate(%v)[%d]", path, dt, i), depth+1)
+			}
+		}
+		if e.RPC != nil {
+			side(e.RPC.Input, path+"/input", depth+1)
+			side(e.RPC.Output, path+"/output", depth+1)
 		}
 	}
 	var walk func(e, parent *yang.Entry, key, path string, isRoot bool)
@@ -88,6 +113,17 @@ func oracle(c rescorr.Case, ms *yang.Modules, errs []error, out *rescorr.GoOut) 
 					add(fmt.Sprintf("child %s of choice %s is a %s, not a case", k, path, ch.Kind))
 				}
 			}
+		}
+		// entries attached to a node without being nodes of the tree: the deviation entries a root keeps
+		// (with their deviate entries) and the copies of merged augments kept on the target.  An error
+		// recorded on one of them after the last sweep is lost in the same way
+		for _, d := range e.Deviations {
+			if d != nil {
+				side(d.Entry, path+"#deviation("+d.DeviatedPath+")", 0)
+			}
+		}
+		for i, a := range e.Augmented {
+			side(a, fmt.Sprintf("%s#augmented[%d]", path, i), 0)
 		}
 		for k, ch := range e.Dir {
 			walk(ch, e, k, path+"/"+k, false)
@@ -182,6 +218,16 @@ func main() {
 	}
 	if f.Replay != "" {
 		rescorr.Replay(f, oracle, keys)
+		return
+	}
+	if dir := os.Getenv("C04_DUMP_CORPUS"); dir != "" {
+		// maintenance aid: write every fixed corpus case as a replay file (<dir>/<i>-<label>.json)
+		for i, c := range corpusCases() {
+			raw, _ := json.Marshal(map[string]any{"disagreement": map[string]any{"replay": c}})
+			if err := os.WriteFile(fmt.Sprintf("%s/%02d-%s.json", dir, i, c.Extra["label"]), raw, 0o644); err != nil {
+				lib.Fatal("%v", err)
+			}
+		}
 		return
 	}
 	res := lib.NewResult("C04", f)
@@ -585,4 +631,96 @@ func corpusCases() []rescorr.Case {
 }
 `),
 	}...)
+}
+
+// oddPrefixCorpus: fixed witnesses for prefixes on path steps after the first that the writing file
+// does not declare.  Deviations and augments are kept in SEPARATE sets: augments run before the
+// last error sweep (whatever a lookup records there is returned by Process and the set is no longer
+// clean), deviations run after it (whatever a lookup records there is only seen by the oracle's
+// walk of every module and submodule root).  Writers: a module that owns nothing but deviations, a
+// module with nodes and augments of its own, a submodule with per-file prefixes.  Targets: leaf,
+// leaf-list, list member, explicit and implied case, rpc input, lazily created rpc output,
+// notification child, augmented-in node, a node of the writer's own tree.
+func oddPrefixCorpus(mk func(kv ...string) rescorr.Case) []rescorr.Case {
+	const base = `module base { namespace "urn:b"; prefix b;
+  container c { leaf l { type string; } leaf-list m { type string; max-elements 4; } container d { leaf e { type string; } }
+    choice ch { case ca { leaf in-case { type string; } } leaf short { type string; } }
+    list ls { key k; leaf k { type string; } leaf v { type string; } } }
+  rpc r { input { leaf x { type string; } } }
+  rpc bare;
+  notification n { leaf nl { type string; } }
+}
+`
+	const other = `module other { namespace "urn:o"; prefix o; leaf unrelated { type string; } }
+`
+	const devOnly = `module dev { namespace "urn:d"; prefix d; import base { prefix b; }
+  deviation "/b:c/bs:l" { deviate replace { type uint8; } }
+  deviation "/b:c/base:m" { deviate replace { max-elements 2; } }
+  deviation "/b:r/b:input/o:x" { deviate add { default "dflt"; } }
+  deviation "/b:c/zz:d/e" { deviate add { config false; } }
+  deviation "/b:bare/bs:output" { deviate add { config false; } }
+  deviation "/b:c/q:ch/q:ca/q:in-case" { deviate add { units u; } }
+  deviation "/b:c/b:ch/zz:short/b:short" { deviate add { default s; } }
+  deviation "/b:c/b:ls/d:v" { deviate not-supported; }
+  deviation "/b:n/x:nl" { deviate add { mandatory true; } }
+}
+`
+	const devIdem = `module dev { namespace "urn:d"; prefix d; import base { prefix b; }
+  deviation "/b:c/bs:l" { deviate replace { type uint8; } }
+  deviation "/b:c/base:m" { deviate replace { max-elements 2; } }
+  deviation "/b:r/input/o:x" { deviate replace { type int8; } }
+}
+`
+	label := func(l string, c rescorr.Case, kv ...string) rescorr.Case {
+		c.Extra = map[string]string{"label": l, "odd_paths": "1"}
+		for i := 0; i+1 < len(kv); i += 2 {
+			c.Extra[kv[i]] = kv[i+1]
+		}
+		return c
+	}
+	out := []rescorr.Case{
+		// a module that owns nothing but deviations
+		label("corpus-oddprefix-dev", mk("base.yang", base, "other.yang", other, "dev.yang", devOnly)),
+		// the same with goyang loading the deviated module from the search path itself
+		label("corpus-oddprefix-dev-path", mk("dev.yang", devOnly, "base.yang", base), "from_path", "1", "roots", "0"),
+		// one deviation, one odd step: nothing else in the set can make the run unclean
+		label("corpus-oddprefix-dev-one", mk("base.yang", base, "dev.yang", `module dev { namespace "urn:d"; prefix d; import base { prefix b; }
+  deviation "/b:c/bs:l" { deviate replace { type uint8; } }
+}
+`)),
+		// the writer has nodes and a (regular) augment of its own; targets: the augmented-in node, a node
+		// of the writer's own tree, the target module's name as a prefix
+		label("corpus-oddprefix-dev-own", mk("base.yang", `module base { namespace "urn:b"; prefix b; container top { leaf name { type string; } } }
+`, "ext.yang", `module ext { namespace "urn:e"; prefix e; import base { prefix b; }
+  container mine { leaf ml { type string; } }
+  augment "/b:top" { container added { leaf al { type string; } } }
+  deviation "/b:top/e:added/zz:al" { deviate replace { type int8; } }
+  deviation "/e:mine/zz:ml" { deviate add { default m; } }
+  deviation "/b:top/base:name" { deviate add { units s; } }
+}
+`)),
+		// written in a submodule: `b` and `h` are declared by the including module, not by this file
+		label("corpus-oddprefix-dev-sub", mk("base.yang", base, "host.yang", `module host { namespace "urn:h"; prefix h; include hsub; import base { prefix b; }
+  container own { leaf a { type string; } }
+}
+`, "hsub.yang", `submodule hsub { belongs-to host { prefix hh; } import base { prefix sb; }
+  deviation "/sb:c/b:l" { deviate replace { type uint8; } }
+  deviation "/sb:c/zz:d/h:e" { deviate add { config false; } }
+  deviation "/sb:r/sb:input/nope:x" { deviate add { default q; } }
+}
+`)),
+		// augments only
+		label("corpus-oddprefix-aug", mk("base.yang", base, "other.yang", other, "aug.yang", `module aug { namespace "urn:a"; prefix a; import base { prefix b; }
+  augment "/b:c/o:d" { leaf more { type string; } }
+  augment "/b:r/zz:input" { leaf y { type string; } }
+  augment "/b:c/base:ch/ca" { leaf more2 { type string; } }
+  augment "/b:bare/zz:output" { leaf res { type string; } }
+}
+`)),
+	}
+	// replacements only (applying them twice changes nothing): the checked run is the last of a sequence
+	for _, k := range []string{"pp", "pcp", "prp", "pctp"} {
+		out = append(out, label("corpus-oddprefix-dev-runs", mk("base.yang", base, "dev.yang", devIdem), "runs", k))
+	}
+	return out
 }
